@@ -59,6 +59,9 @@ pub struct ReqSpec {
     pub query: String,
     /// query extractor entry point: from_query (false) or from_request (true)
     pub via_request: bool,
+    /// ActixQuery through FromRequest only: the request's URI is rewritten to this query string
+    /// (as a path-normalising middleware would) and the extraction is made a second time
+    pub query2: Option<String>,
 }
 
 impl ReqSpec {
@@ -149,6 +152,7 @@ impl Scenario {
                 "axum_limit": r.axum_limit,
                 "query": r.query,
                 "via_request": r.via_request,
+                "query2": r.query2,
             })).collect::<Vec<_>>(),
         })
     }
@@ -192,6 +196,7 @@ impl Scenario {
                 axum_limit: r.get("axum_limit")?.as_u64().map(|x| x as usize),
                 query: r.get("query")?.as_str()?.to_string(),
                 via_request: r.get("via_request")?.as_bool()?,
+                query2: r.get("query2").and_then(|q| q.as_str()).map(|q| q.to_string()),
             });
         }
         Some(Scenario {
@@ -402,6 +407,16 @@ pub fn generate(seed: u64, index: u64, thorough: bool) -> Scenario {
                 axum_limit: None,
                 query: q.join("&"),
                 via_request: rng.chance(1, 2),
+                query2: if rng.chance(1, 3) {
+                    let k2 = rng.below(3);
+                    let mut q2: Vec<&str> = vec![];
+                    for _ in 0..k2 {
+                        q2.push(*rng.pick(&parts));
+                    }
+                    Some(q2.join("&"))
+                } else {
+                    None
+                },
             });
             continue;
         }
@@ -517,6 +532,7 @@ pub fn generate(seed: u64, index: u64, thorough: bool) -> Scenario {
             axum_limit: if framework == Framework::AxumJson { limit } else { None },
             query: String::new(),
             via_request: false,
+            query2: None,
         });
     }
     Scenario { seed, index, sched_seed, requests, p_spurious_pm, p_drop_pm, choices: vec![] }
